@@ -127,7 +127,7 @@ def mutate(kind, mid, extra):
     return ast.unparse(t)
 
 
-scratch = tempfile.mkdtemp(prefix='mut.', dir='/tmp')
+scratch = tempfile.mkdtemp(prefix='msw.', dir='/tmp')
 out = []
 try:
     subprocess.run('cp -r /repo/mystic %s/mystic' % scratch, shell=True, check=True)
